@@ -34,6 +34,8 @@
 //	               classes: valid | invalid | empty | raw (wrong type / broken literal) | unparsable (URI-like options that
 //	               pint does not validate) | templated-safe | templated-raw | templated-datadep | templated-invalid
 //	cfg.HasProm / HasDiscovery / HasLink / HasTemplated / HasRegexOpt / CheckKinds   coarse facts about the text
+//	cfg.Focused / cfg.SinglePerturbed   what the focused-sub-block and single-perturbation modes did
+//	               (Opts.Targets = pintcfg.Targets(fileName, doc), Opts.Command, Opts.State, Opts.SingleInvalid)
 //	cfg.Excluded   how many draws were diverted by an exclusion switch (Opts.NoRawSubst, NoBadFailover, NoBadLinkRewrite, NoEmptyRangeMax)
 //
 //	Opts.InvalidPct is a calibrated per-value rate: rapid's integer/float generators are biased towards small
